@@ -323,3 +323,13 @@ def r7_optimised(ctx: Ctx) -> None:
     if not counted_after:
         ctx.report(f.where, "counter-before-optimisation", "the iteration counter is advanced on a path that did not optimise", lineno=inc.lineno)
     ctx.site(f.where, "an early exit of the loop is taken only from the second iteration on (counter > 1), the counter counts optimisations", breaks=n_br, ok=ok)
+
+
+@rule("C10", "R8.fixed-cells-never-refined", "SHARED(C02)",
+      "the refinement steps glbfloor alternates with the optimisation never cut the cell of a fixed module (for every threshold, "
+      "1.0 included): every split reachable from refine / must_be_refined's test is guarded by the not-fixed test of the cell's "
+      "rectangle -- the C02 rule, for the functions glbfloor calls", floor=1)
+def shared_fixed_not_cut(ctx: Ctx) -> None:
+    from . import C02 as _c02
+    from .common import support
+    support(ctx, [_c02.r3], {"Allocation.refine", "Allocation.must_be_refined", "Allocation.griddify"})
